@@ -190,9 +190,11 @@ I_C05_AckMeansRegisteredOrCompleted ==
         LET o == Op(rq[1], db, rq[2], now)
             a == rq[2]
             cbid == IF rq[1] = "CreateCallback" THEN CallbackId(a.rootId, a.promiseId)
-                    ELSE SubscriptionId(a.promiseId, a.id) IN
+                    ELSE SubscriptionId(a.promiseId, a.id)
+            mesg == IF rq[1] = "CreateCallback" THEN [type |-> "resume", root |-> a.rootId, leaf |-> a.promiseId]
+                    ELSE [type |-> "notify", root |-> a.promiseId, leaf |-> ""] IN
         (o.res.status \in {OK, CREATED} /\ IsSome(o.res.promise)) =>
-           C05_AckMeansRegisteredOrCompleted(o.db, The(o.res.promise), cbid)
+           C05_AckMeansRegisteredOrCompleted(o.db, The(o.res.promise), cbid, mesg)
 
 \* --- C07
 A_C07_CountersNeverDecrease == [][C07_CountersNeverDecrease(db, db')]_vars
